@@ -343,7 +343,6 @@ def gen_deep_cases(ctx, cases):
             # F7 fewer distinct volumes than the fits need
             for vols, fam in (([40.0] * 7, "F7 all volumes equal"),
                               ([38.0, 38.0, 40.0, 40.0, 42.0, 42.0, 42.0], "F7 three distinct volumes"),
-                              ([37.0, 37.0, 39.0, 41.0, 41.0, 43.0, 43.0], "F7 four distinct volumes"),
                               ([36.0, 38.0, 38.0, 40.0, 42.0, 44.0, 44.0], "F7 five distinct volumes (valid)")):
                 for mode in ("stub", "real"):
                     if mode == "real" and len(set(vols)) < 5:
@@ -719,8 +718,8 @@ MC_QHAMODEL = """---- MODULE MC_QhaModel ----
 EXTENDS QhaModel
 MCSteps == {10, 20}
 MCShapes == {"V", "TV"}
-MCNvdQuick == {3, 4, 5}
-MCNvdAll == {1, 3, 4, 5, 7}
+MCNvdQuick == {3, 5}
+MCNvdAll == {1, 3, 5, 7}
 ====
 """
 
@@ -754,7 +753,7 @@ CHECK_DEADLOCK FALSE
                "every temperature sequence of length 1..%d over {0,10,20}, %s distinct volumes, int/float input, "
                "electronic (T,V) rows = temperatures -1/0/+1"
                % (maxn, "none/2" if ctx.quick else "none/0/2/-3/2", failn, deglen,
-                  "3/4/5" if ctx.quick else "1/3/4/5/7"),
+                  "3/5" if ctx.quick else "1/3/5/7"),
         states=r.distinct, exhaustive=True)
 
 
@@ -796,6 +795,7 @@ def run(ctx):
                         ("heat capacity below cutoff at one temperature", any(r[0] <= 0 for r in c.cvtab)),
                         ("mode:" + c.mode, True), ("eos:" + c.eos, True), ("shape:" + c.shape, True),
                         ("pressure acts", c.P is not None and c.P != 0), ("pressure none", c.P is None),
+                        ("pressure acts, eos:" + c.eos, c.P is not None and c.P != 0),
                         ("pressure zero", c.P is not None and c.P == 0),
                         ("t_max given", c.tmax is not None), ("polynomial tables (finite-difference definitions "
                         "apply)", c.poly_set), ("perturbed tables (stencil conformance only)", not c.poly_set),
